@@ -31,6 +31,13 @@ def compare(out, label, fa, fb):
                         # admissible for each route (judged by Trace_Vfs), but the two histories cannot be compared any further
                         out.cov["histories_cut_at_partial_result"] = out.cov.get("histories_cut_at_partial_result", 0) + 1
                         break
+                    if (sa != sb and sa["c"] == sb["c"] and sa["r"] == sb["r"] and sa["c"]["op"] in ("copy", "copy_b", "copy_seq") and sa["same"] == sb["same"] == "f"
+                            and sa["post"]["e"] == sb["post"]["e"] and [f["p"] for f in sa["post"]["f"]] == [f["p"] for f in sb["post"]["f"]]):
+                        # a copy into the source's own subtree may read bytes it has just written (D12; which ones depends on the
+                        # hash order of the instance): same entries, different bytes - each route is judged by Trace_Vfs, the two
+                        # histories cannot be compared any further
+                        out.cov["histories_cut_at_overlapping_copy"] = out.cov.get("histories_cut_at_overlapping_copy", 0) + 1
+                        break
                     if sa != sb:
                         out.add_violation(["route-differs", label, sa["c"]["op"], "direct:" + sa["r"]["o"], "enum:" + sb["r"]["o"]],
                                           record=dict(direct=sa, enum=sb, history_calls=[s["c"] for s in ra["steps"][:i]][-30:]), validator="route-compare")
